@@ -1,5 +1,8 @@
 import Zc.Proofs.Response
 import Zc.Proofs.ResponseComplete
+import Zc.Props.C11Wire
+import Zc.Props.C12
+import Zc.Proofs.ResponseExact
 /-! # C11 — replies are routed and formatted as RFC 6762 §5.4, §6 and §6.7 require
 
 The decision logic of `_QueryResponse` / `async_response` / `handle_assembled_query` stated outright,
@@ -8,7 +11,7 @@ answers (`qr` is an arbitrary accumulated state, so the statements hold for any 
 question in a query of any length), plus the header/class fields `DNSOutgoing` writes.
 5353, 0x8400 and 0x8000 come from the English property / RFC; `GenFacts` ties them to the source. -/
 namespace Zc.Reply
-open GenFacts
+open Zc.Reply.GenFacts
 
 /-! ## C11_legacy — source port ≠ 5353 -/
 
@@ -29,10 +32,11 @@ theorem C11_legacy (port : Nat) (hport : port ≠ 5353) (probe : Bool) (seen : S
   · exact Or.inr (Or.inr (h2.mpr (Or.inr ⟨hr, hroute⟩)))
   · exact Or.inr (Or.inl (h3.mpr (Or.inr ⟨hr, hroute⟩)))
 
-/-- the unicast reply: sent in the arrival block to the querier's address and port (on the receiving
-transport: `Out.ucast` has no other), with the id of the (first packet of the) query, and with that
-packet's questions echoed exactly when the source port is not 5353 (`nquestions` is the size of the
-echoed question section) -/
+/-- the unicast reply of `handle_assembled_query` (that the query reaches it is `C11_legacy_gets_reply_partial`): sent in the
+block that answers — the arrival block of an untruncated query, the timer block of a held one — to the address the block runs for
+and the port it was handed (for a held query the port of the last deferred packet), with the id of the first packet of the query, and
+with that packet's questions echoed exactly when the source port is not 5353 (`nquestions` is the size of the echoed question
+section).  On which socket and to which complete sockaddr: `C11_unicast_receiving_socket`, `C11_unicast_dest_is_source` (`Props/C11Net`). -/
 theorem C11_unicast_reply {h : Host} {clock : Int} {pkts : List Pkt} {addr port : Nat} {seen : SeenMap} {draws : List Int}
     {r : StepOut} {rest : List Int} (hs : h.assemble clock pkts addr port seen draws = .ok (r, rest))
     {qa : QA} (hqa : asyncResponse pkts (Gen.Reply.ucast_source port) seen = some qa) :
@@ -213,6 +217,107 @@ theorem C11_query_probe_mcast (us : Bool) {pkts : List Pkt} {seen : SeenMap} {qa
       exact (addMcast_sets _ seen l.now f.nq f.q0type _ _ r).1.mpr (Or.inr ⟨hr, hnow r⟩))
   exact b rfl
 
+/-! ## whole queries, both directions (second review: the `C11_query_*` theorems above are inclusions) -/
+
+/-- **What a whole query is answered with, exactly** (any number of packets and questions, any mix of QU and QM, any source): the
+four sets `async_response` returns contain precisely the unsuppressed candidates the routing rule sends there — nothing else is
+unicast, multicast at once, or queued.  `!us && it.qu` is "a QU question from port 5353". -/
+theorem C11_query_exact {pkts : List Pkt} {us : Bool} {seen : SeenMap} {qa : QA} (h : asyncResponse pkts us seen = some qa)
+    {first last : Pkt} (hf : pkts.head? = some first) (hl : pkts.getLast? = some last) (r : RecId) :
+    (r ∈ qa.ucast.keys ↔ ∃ it ∈ pkts.flatMap (·.items), r ∈ (answerSet (unionKnown pkts) it).keys ∧
+        (if (!us && it.qu) = true then (pkts.any (·.isProbe) = true ∨ withinQuarter (seen.get r) last.now = true) else us = true)) ∧
+    (r ∈ qa.mcastNow.keys ↔ ∃ it ∈ pkts.flatMap (·.items), r ∈ (answerSet (unionKnown pkts) it).keys ∧
+        (if (!us && it.qu) = true then withinQuarter (seen.get r) last.now = false
+         else mcRoute (pkts.any (·.isProbe)) (inLastSecond (seen.get r) last.now) first.nq first.q0type = .now)) ∧
+    (r ∈ qa.mcastAgg.keys ↔ ∃ it ∈ pkts.flatMap (·.items), r ∈ (answerSet (unionKnown pkts) it).keys ∧ (!us && it.qu) = false ∧
+        mcRoute (pkts.any (·.isProbe)) (inLastSecond (seen.get r) last.now) first.nq first.q0type = .aggregate) ∧
+    (r ∈ qa.mcastLast.keys ↔ ∃ it ∈ pkts.flatMap (·.items), r ∈ (answerSet (unionKnown pkts) it).keys ∧ (!us && it.qu) = false ∧
+        mcRoute (pkts.any (·.isProbe)) (inLastSecond (seen.get r) last.now) first.nq first.q0type = .lastSecond) :=
+  asyncResponse_exact h hf hl r
+
+/-- **"answered by unicast alone unless …"** for a query from port 5353 all of whose questions are QU: nothing is ever queued; a record
+is multicast (at once) only if it was *not* seen within a quarter of its TTL, and unicast only if it was (or the query is a probe);
+so for a query that is not a probe no record is both unicast and multicast — the reply to a recently multicast record is the unicast
+datagram alone. -/
+theorem C11_query_qu_alone {pkts : List Pkt} {seen : SeenMap} {qa : QA}
+    (h : asyncResponse pkts (Gen.Reply.ucast_source 5353) seen = some qa)
+    (hall : ∀ p ∈ pkts, ∀ it ∈ p.items, it.qu = true) {last : Pkt} (hl : pkts.getLast? = some last) :
+    qa.mcastAgg.keys = [] ∧ qa.mcastLast.keys = [] ∧
+    (∀ r, r ∈ qa.mcastNow.keys → withinQuarter (seen.get r) last.now = false) ∧
+    (∀ r, r ∈ qa.ucast.keys → pkts.any (·.isProbe) = true ∨ withinQuarter (seen.get r) last.now = true) ∧
+    (pkts.any (·.isProbe) = false → ∀ r, ¬ (r ∈ qa.ucast.keys ∧ r ∈ qa.mcastNow.keys)) := by
+  have hus : Gen.Reply.ucast_source (5353 : Int) = false := by
+    have := (not_congr (GenFacts.ucast_source 5353)).mpr (by simp); simpa using this
+  rw [hus] at h
+  obtain ⟨first, _, hf, _, _⟩ := asyncResponse_eq h
+  have hqu : ∀ it ∈ pkts.flatMap (·.items), (!false && it.qu) = true := by
+    intro it hit
+    obtain ⟨p, hp, hip⟩ := List.mem_flatMap.mp hit
+    simp [hall p hp it hip]
+  have hN : ∀ r, r ∈ qa.mcastNow.keys → withinQuarter (seen.get r) last.now = false := by
+    intro r hr
+    obtain ⟨it, hit, _, hc⟩ := (C11_query_exact h hf hl r).2.1.mp hr
+    rw [if_pos (hqu it hit)] at hc; exact hc
+  have hU : ∀ r, r ∈ qa.ucast.keys → pkts.any (·.isProbe) = true ∨ withinQuarter (seen.get r) last.now = true := by
+    intro r hr
+    obtain ⟨it, hit, _, hc⟩ := (C11_query_exact h hf hl r).1.mp hr
+    rw [if_pos (hqu it hit)] at hc; exact hc
+  refine ⟨?_, ?_, hN, hU, ?_⟩
+  · rw [List.eq_nil_iff_forall_not_mem]
+    intro r hr
+    obtain ⟨it, hit, _, hc, _⟩ := (C11_query_exact h hf hl r).2.2.1.mp hr
+    rw [hqu it hit] at hc; cases hc
+  · rw [List.eq_nil_iff_forall_not_mem]
+    intro r hr
+    obtain ⟨it, hit, _, hc, _⟩ := (C11_query_exact h hf hl r).2.2.2.mp hr
+    rw [hqu it hit] at hc; cases hc
+  · intro hnp r ⟨hu, hn⟩
+    rcases hU r hu with hp | hw
+    · rw [hnp] at hp; cases hp
+    · rw [hN r hn] at hw; cases hw
+
+/-- a QU **probe** from port 5353 (all questions QU): every answer is unicast, and it is multicast at once **iff** it was not seen
+within a quarter of its TTL ("plus multicast when the record was not recently multicast" — and only then); nothing is queued -/
+theorem C11_query_probe_qu_exact {pkts : List Pkt} {seen : SeenMap} {qa : QA}
+    (h : asyncResponse pkts (Gen.Reply.ucast_source 5353) seen = some qa) (hprobe : pkts.any (·.isProbe) = true)
+    (hall : ∀ p ∈ pkts, ∀ it ∈ p.items, it.qu = true) {last : Pkt} (hl : pkts.getLast? = some last) (r : RecId) :
+    (r ∈ qa.ucast.keys ↔ ∃ it ∈ pkts.flatMap (·.items), r ∈ (answerSet (unionKnown pkts) it).keys) ∧
+    (r ∈ qa.mcastNow.keys ↔ (∃ it ∈ pkts.flatMap (·.items), r ∈ (answerSet (unionKnown pkts) it).keys) ∧
+        withinQuarter (seen.get r) last.now = false) := by
+  have hus : Gen.Reply.ucast_source (5353 : Int) = false := by
+    have := (not_congr (GenFacts.ucast_source 5353)).mpr (by simp); simpa using this
+  rw [hus] at h
+  obtain ⟨first, _, hf, _, _⟩ := asyncResponse_eq h
+  have hqu : ∀ it ∈ pkts.flatMap (·.items), (!false && it.qu) = true := by
+    intro it hit
+    obtain ⟨p, hp, hip⟩ := List.mem_flatMap.mp hit
+    simp [hall p hp it hip]
+  obtain ⟨e1, e2, _, _⟩ := C11_query_exact h hf hl r
+  constructor
+  · rw [e1]
+    constructor
+    · rintro ⟨it, hit, hk, _⟩; exact ⟨it, hit, hk⟩
+    · rintro ⟨it, hit, hk⟩; exact ⟨it, hit, hk, by rw [if_pos (hqu it hit)]; exact Or.inl hprobe⟩
+  · rw [e2]
+    constructor
+    · rintro ⟨it, hit, hk, hc⟩
+      rw [if_pos (hqu it hit)] at hc
+      exact ⟨⟨it, hit, hk⟩, hc⟩
+    · rintro ⟨⟨it, hit, hk⟩, hc⟩
+      exact ⟨it, hit, hk, by rw [if_pos (hqu it hit)]; exact hc⟩
+
+/-- a query from a legacy port: the unicast reply carries exactly the unsuppressed candidates of its questions -/
+theorem C11_query_legacy_exact (port : Nat) (hport : port ≠ 5353) {pkts : List Pkt} {seen : SeenMap} {qa : QA}
+    (h : asyncResponse pkts (Gen.Reply.ucast_source port) seen = some qa) (r : RecId) :
+    r ∈ qa.ucast.keys ↔ ∃ it ∈ pkts.flatMap (·.items), r ∈ (answerSet (unionKnown pkts) it).keys := by
+  have hus : Gen.Reply.ucast_source (port : Int) = true := (GenFacts.ucast_source _).mpr (by omega)
+  rw [hus] at h
+  obtain ⟨first, last, hf, hl, _⟩ := asyncResponse_eq h
+  rw [(C11_query_exact h hf hl r).1]
+  constructor
+  · rintro ⟨it, hit, hk, _⟩; exact ⟨it, hit, hk⟩
+  · rintro ⟨it, hit, hk⟩; exact ⟨it, hit, hk, by simp⟩
+
 /-! ## C11_mcast_fmt — what every multicast reply looks like; no flush bit in unicast replies -/
 
 theorem or_flush (class_ : Nat) (hc : class_ < 0x8000) : class_ ||| 0x8000 = class_ + 0x8000 := by
@@ -221,8 +326,9 @@ theorem or_flush (class_ : Nat) (hc : class_ < 0x8000) : class_ ||| 0x8000 = cla
   simp only [Nat.reducePow, Nat.mul_one] at h
   omega
 
-/-- id 0, response + authoritative flags, cache-flush bit exactly on the unique records (the model's
-`Out.mcast` has no question section: `construct_outgoing_multicast_answers` adds none) -/
+/-- id 0, response + authoritative flags, cache-flush bit exactly on the unique records, at the level of the leaves `_write_record_class`
+/ `packets` use; that a multicast reply has no question section is `C11_mcast_no_questions` (`Props/C11Net`), and the same on the
+bytes is `C11_mcast_wire` (`Props/C11Wire`) -/
 theorem C11_mcast_fmt (id class_ : Nat) (unique : Bool) (hc : class_ < 0x8000) :
     wireId true id = 0 ∧ replyFlags = 0x8400 ∧
     (wireClass class_ unique true ≥ 0x8000 ↔ unique = true) ∧ wireClass class_ unique true % 0x8000 = class_ := by
@@ -285,6 +391,342 @@ with "the socket is IPv6" -/
 theorem C11_family (ipv6_socket address_has_colon : Bool) :
     Gen.Reply.can_send_to ipv6_socket address_has_colon = true ↔ ipv6_socket = address_has_colon :=
   GenFacts.can_send_to _ _
+
+/-! ## "gets a reply": the receive path in front of `handle_assembled_query`, and the two findings of the second review -/
+
+/-- the duplicate guard of `_process_datagram_at_time` drops this datagram: same bytes as the one the listener saw last, less than
+one second ago, and that one was not a query with a QU question -/
+def Listener.repeats (l : Listener) (t : Int) (dataId : Nat) : Bool :=
+  Gen.Reply.l_duplicate (l.lastData == some dataId) t l.lastTime l.lastMsgQu.isNone (l.lastMsgQu.getD false)
+
+/-- an untruncated query that is neither over-sized nor dropped by the duplicate guard reaches `handle_assembled_query` together with
+whatever was deferred for its address -/
+theorem decide_plain_query {h : Host} {t : Int} {addr port dataId size : Nat} {hasQu : Bool} {p : Pkt} {seen : SeenMap} {draws : List Int}
+    {a : Act} (hd : h.decide (.rx t addr port dataId size hasQu (.query p) seen draws) = .ok a)
+    (hsize : size ≤ 8966) (hrep : h.lis.repeats t dataId = false) (htc : p.truncated = false) :
+    ∃ lis, a = .answer lis (h.lis.deferredOf addr ++ [p]) addr port := by
+  have hov : Gen.Reply.l_oversize (size : Int) = false := by
+    cases hh : Gen.Reply.l_oversize (size : Int)
+    · rfl
+    · simp [Gen.Reply.l_oversize] at hh; omega
+  unfold Listener.repeats at hrep
+  simp only [Host.decide, hov, hrep, Bool.false_eq_true, if_false] at hd
+  split at hd
+  · cases hd
+  · rw [GenFacts.l_not_truncated, htc] at hd
+    simp only [Bool.not_false, if_true, Except.ok.injEq] at hd
+    subst hd
+    refine ⟨(({ h.lis with lastData := some dataId, lastTime := t, lastMsgQu := some hasQu } : Listener).take (some p) addr).1, ?_⟩
+    congr 1
+
+/-- a receive block that answers: for the address and port of the datagram, with the packets deferred for the address and the packet at hand -/
+theorem decide_rx_answer {h : Host} {t : Int} {addr port dataId size : Nat} {hasQu : Bool} {p : Pkt} {seen : SeenMap} {draws : List Int}
+    {lis : Listener} {pkts : List Pkt} {addr' port' : Nat}
+    (hd : h.decide (.rx t addr port dataId size hasQu (.query p) seen draws) = .ok (.answer lis pkts addr' port')) :
+    addr' = addr ∧ port' = port ∧ pkts = h.lis.deferredOf addr ++ [p] := by
+  simp only [Host.decide] at hd
+  repeat' split at hd
+  all_goals first
+    | (cases hd; done)
+    | skip
+  cases hd
+  exact ⟨rfl, rfl, by rw [take_pkts]; rfl⟩
+
+/-- the clause at full strength: **every** untruncated query from a source port other than 5353 that has an unsuppressed candidate
+answer gets a unicast reply to its address and port in its block, whatever the host has seen before -/
+def C11_legacy_gets_reply_full : Prop :=
+  ∀ (h : Host) (t : Int) (addr port dataId size : Nat) (hasQu : Bool) (p : Pkt) (seen : SeenMap) (draws : List Int) (r : StepOut),
+    h.step (.rx t addr port dataId size hasQu (.query p) seen draws) = .ok r → size ≤ 8966 → port ≠ 5353 → p.truncated = false →
+    (∃ it ∈ p.items, ∃ c ∈ it.cands, suppresses (unionKnown (h.lis.deferredOf addr ++ [p])) c = false) →
+    ∃ id nq a b, Out.ucast addr port id nq a b ∈ r.outs
+
+/-- **What holds (finding D35).**  … provided the datagram is not a byte-identical repeat (< 1 s) of the datagram the listener saw
+last (`Listener.repeats`: the duplicate guard compares the bytes only, not the source).  The block is any accepted block
+(`h.step … = .ok r`: the loop facts), from any host state; the reply carries the id of the first packet of the query (the deferred
+ones of this address first) and the candidate among its answers. -/
+theorem C11_legacy_gets_reply_partial (h : Host) (t : Int) (addr port dataId size : Nat) (hasQu : Bool) (p : Pkt) (seen : SeenMap)
+    (draws : List Int) (r : StepOut)
+    (hs : h.step (.rx t addr port dataId size hasQu (.query p) seen draws) = .ok r) (hsize : size ≤ 8966) (hport : port ≠ 5353)
+    (htc : p.truncated = false) (hrep : h.lis.repeats t dataId = false)
+    {it : QItem} (hit : it ∈ p.items) {c : Cand} (hc : c ∈ it.cands)
+    (hsup : suppresses (unionKnown (h.lis.deferredOf addr ++ [p])) c = false) :
+    ∃ first qa, (h.lis.deferredOf addr ++ [p]).head? = some first ∧
+      asyncResponse (h.lis.deferredOf addr ++ [p]) (Gen.Reply.ucast_source port) seen = some qa ∧ c.id ∈ qa.ucast.keys ∧
+      Out.ucast addr port first.id first.nq qa.ucast.keys (additionalsOf qa.ucast) ∈ r.outs := by
+  obtain ⟨a, hd, hp⟩ := step_decide hs
+  obtain ⟨lis, rfl⟩ := decide_plain_query hd hsize hrep htc
+  obtain ⟨rest, ha⟩ := perform_answer hp
+  have hpm : p ∈ h.lis.deferredOf addr ++ [p] := by simp
+  obtain ⟨qa, hqa⟩ := asyncResponse_isSome (Gen.Reply.ucast_source port) seen hpm hit
+  have hqa' : asyncResponse (h.lis.deferredOf addr ++ [p]) (Gen.Reply.ucast_source port)
+      (Ev.rx t addr port dataId size hasQu (.query p) seen draws).seen = some qa := hqa
+  obtain ⟨first, hf, ho, _⟩ := assemble_spec ha hqa'
+  have hus : Gen.Reply.ucast_source (port : Int) = true := (GenFacts.ucast_source _).mpr (by omega)
+  have hkey : c.id ∈ (answerSet (unionKnown (h.lis.deferredOf addr ++ [p])) it).keys := answerSet_has _ _ _ hc hsup
+  rw [hus] at hqa
+  have hu := (query_legacy_us hqa hpm hit c.id hkey).1
+  rw [← hus] at hqa
+  refine ⟨first, qa, hf, hqa, hu, ?_⟩
+  rw [ho]
+  have hne : qa.ucast.isEmpty = false := Dict.isEmpty_false_of_mem hu
+  simp [immediateOuts, hne, hus, GenFacts.ans_echo_questions]
+
+/-- the witness of D35: resolver 1 (address id 1, port 40000) asked 10 ms ago; resolver 2 (address id 2, port 40001) sends the same
+bytes (datagram id 7) — a single PTR question with a candidate answer — and the host sends nothing -/
+def d24Pkt : Pkt := { dataId := 7, now := 1010, id := 0, flags := 0, numAuth := 0, nq := 1, q0type := 12,
+                      items := [{ qu := false, cands := [{ id := 5, ttl := 4500, adds := [] }] }], known := [] }
+def d24Host : Host := { lis := { lastData := some 7, lastTime := 1000, lastMsgQu := some false } }
+
+theorem C11_legacy_gets_reply_refuted : ¬ C11_legacy_gets_reply_full := by
+  intro hfull
+  cases hr : d24Host.step (.rx 1010 2 40001 7 60 false (.query d24Pkt) [] []) with
+  | error m =>
+    have : (d24Host.step (.rx 1010 2 40001 7 60 false (.query d24Pkt) [] [])).toOption.isSome = true := by decide
+    rw [hr] at this; cases this
+  | ok r =>
+    have hout : (d24Host.step (.rx 1010 2 40001 7 60 false (.query d24Pkt) [] [])).toOption.map (·.outs) = some [] := by decide
+    rw [hr] at hout
+    simp only [Except.toOption, Option.map_some, Option.some.injEq] at hout
+    obtain ⟨id, nq, a, b, hm⟩ := hfull d24Host 1010 2 40001 7 60 false d24Pkt [] [] r hr (by decide) (by decide) (by decide)
+      ⟨_, List.mem_singleton.mpr rfl, _, List.mem_singleton.mpr rfl, by decide⟩
+    rw [hout] at hm; cases hm
+
+/-- … and the guard is what drops it: the witness is a repeat -/
+example : d24Host.lis.repeats 1010 7 = true := by decide
+
+/-! ### a QU question is owed its reply, whatever arrived before -/
+
+/-- "the last message had a QU question" is a fact about the stored bytes: if the datagram at hand has the bytes the listener stored
+last, the stored flag is this datagram's (`hasQu` is computed from the bytes) -/
+def Listener.LastCoherent (l : Listener) (dataId : Nat) (hasQu : Bool) : Prop := l.lastData = some dataId → l.lastMsgQu = some hasQu
+
+instance (l : Listener) (dataId : Nat) (hasQu : Bool) : Decidable (l.LastCoherent dataId hasQu) := by
+  unfold Listener.LastCoherent; infer_instance
+
+/-- a query with a QU question is never taken for a repeat -/
+theorem qu_never_repeats (l : Listener) (t : Int) (dataId : Nat) (hc : l.LastCoherent dataId true) : l.repeats t dataId = false := by
+  unfold Listener.repeats Gen.Reply.l_duplicate
+  by_cases hd : l.lastData = some dataId
+  · simp [hd, hc hd]
+  · have : (l.lastData == some dataId) = false := by simpa using hd
+    simp [this]
+
+/-- **A query with a QU question gets its reply — no exception** (the duplicate guard exempts it, so this holds however many copies of
+the datagram arrive and from wherever): an untruncated query with a QU question that has an unsuppressed candidate is answered in its
+block, by the unicast datagram to its address and port, or — when the record was not multicast within a quarter of its TTL and the
+source port is 5353 — by the multicast sent at once. -/
+theorem C11_qu_gets_reply (h : Host) (t : Int) (addr port dataId size : Nat) (p : Pkt) (seen : SeenMap) (draws : List Int) (r : StepOut)
+    (hs : h.step (.rx t addr port dataId size true (.query p) seen draws) = .ok r) (hsize : size ≤ 8966) (htc : p.truncated = false)
+    (hcoh : h.lis.LastCoherent dataId true)
+    {it : QItem} (hit : it ∈ p.items) (hqu : it.qu = true) {c : Cand} (hc : c ∈ it.cands)
+    (hsup : suppresses (unionKnown (h.lis.deferredOf addr ++ [p])) c = false) :
+    ∃ first qa, (h.lis.deferredOf addr ++ [p]).head? = some first ∧
+      asyncResponse (h.lis.deferredOf addr ++ [p]) (Gen.Reply.ucast_source port) seen = some qa ∧
+      ((c.id ∈ qa.ucast.keys ∧ Out.ucast addr port first.id (if port ≠ 5353 then first.nq else 0) qa.ucast.keys (additionalsOf qa.ucast) ∈ r.outs) ∨
+       (c.id ∈ qa.mcastNow.keys ∧ Out.ofMcast qa.mcastNow ∈ r.outs)) := by
+  obtain ⟨a, hd, hp⟩ := step_decide hs
+  obtain ⟨lis, rfl⟩ := decide_plain_query hd hsize (qu_never_repeats _ _ _ hcoh) htc
+  obtain ⟨rest, ha⟩ := perform_answer hp
+  have hpm : p ∈ h.lis.deferredOf addr ++ [p] := by simp
+  obtain ⟨qa, hqa⟩ := asyncResponse_isSome (Gen.Reply.ucast_source port) seen hpm hit
+  have hqa' : asyncResponse (h.lis.deferredOf addr ++ [p]) (Gen.Reply.ucast_source port)
+      (Ev.rx t addr port dataId size true (.query p) seen draws).seen = some qa := hqa
+  have hkey : c.id ∈ (answerSet (unionKnown (h.lis.deferredOf addr ++ [p])) it).keys := answerSet_has _ _ _ hc hsup
+  obtain ⟨first, hf, hu, _⟩ := C11_unicast_reply ha hqa'
+  obtain ⟨first', hf', ho, _⟩ := assemble_spec ha hqa'
+  have hm : qa.mcastNow.isEmpty = false → Out.ofMcast qa.mcastNow ∈ r.outs := by
+    intro hne; rw [ho]; simp [immediateOuts, hne]
+  refine ⟨first, qa, hf, hqa, ?_⟩
+  by_cases hport : port = 5353
+  · subst hport
+    have hus : Gen.Reply.ucast_source (5353 : Int) = false := by
+      have := (not_congr (GenFacts.ucast_source 5353)).mpr (by simp); simpa using this
+    obtain ⟨last, hl⟩ : ∃ last, (h.lis.deferredOf addr ++ [p]).getLast? = some last := ⟨p, by simp⟩
+    have hqa0 := hqa
+    rw [show ((5353 : Nat) : Int) = (5353 : Int) from rfl, hus] at hqa0
+    obtain ⟨q1, q2, _⟩ := query_qu_us hqa0 hpm hit hqu c.id hkey hl
+    cases hw : withinQuarter (seen.get c.id) last.now
+    · right
+      exact ⟨q2 hw, hm (Dict.isEmpty_false_of_mem (q2 hw))⟩
+    · left
+      exact ⟨q1 hw, hu (Dict.isEmpty_false_of_mem (q1 hw))⟩
+  · left
+    have hus : Gen.Reply.ucast_source (port : Int) = true := (GenFacts.ucast_source _).mpr (by omega)
+    have hqa0 := hqa
+    rw [hus] at hqa0
+    have hin := (query_legacy_us hqa0 hpm hit c.id hkey).1
+    exact ⟨hin, hu (Dict.isEmpty_false_of_mem hin)⟩
+
+example : ({} : Host).lis.LastCoherent 7 true := by decide
+
+/-! ### finding D36: deferral is keyed by the address alone -/
+
+/-- every packet deferred for `addr` was received from source port `port` (`srcPort` names, for each datagram, the port it came from) -/
+def Listener.DeferredFromPort (l : Listener) (srcPort : Nat → Nat) (addr port : Nat) : Prop :=
+  ∀ pk ∈ l.deferredOf addr, srcPort pk.dataId = port
+
+instance (l : Listener) (srcPort : Nat → Nat) (addr port : Nat) : Decidable (l.DeferredFromPort srcPort addr port) := by
+  unfold Listener.DeferredFromPort; infer_instance
+
+/-- the clause at full strength: the unicast reply sent to `(addr, port)` echoes the id of a datagram that came from `(addr, port)` —
+"a query from … gets a unicast reply to that address and port … echoing the query id" — whatever else the host is holding -/
+def C11_reply_own_query_full : Prop :=
+  ∀ (srcPort : Nat → Nat) (h : Host) (t : Int) (addr port dataId size : Nat) (hasQu : Bool) (p : Pkt) (seen : SeenMap) (draws : List Int)
+    (r : StepOut), h.step (.rx t addr port dataId size hasQu (.query p) seen draws) = .ok r → p.dataId = dataId → srcPort dataId = port →
+    ∀ a q id nq x y, Out.ucast a q id nq x y ∈ r.outs →
+      ∃ pk ∈ h.lis.deferredOf addr ++ [p], pk.id = id ∧ srcPort pk.dataId = port
+
+/-- **What holds (finding D36).**  … provided every packet held for the address came from the same source port (the listener keys
+`_deferred` and `_timers` by the address string alone): then the reply echoes the id of the *first* packet of this querier's train. -/
+theorem C11_reply_own_query_partial (srcPort : Nat → Nat) (h : Host) (t : Int) (addr port dataId size : Nat) (hasQu : Bool) (p : Pkt)
+    (seen : SeenMap) (draws : List Int) (r : StepOut)
+    (hs : h.step (.rx t addr port dataId size hasQu (.query p) seen draws) = .ok r) (hpd : p.dataId = dataId) (hsrc : srcPort dataId = port)
+    (hsame : h.lis.DeferredFromPort srcPort addr port) :
+    ∀ a q id nq x y, Out.ucast a q id nq x y ∈ r.outs →
+      ∃ first, (h.lis.deferredOf addr ++ [p]).head? = some first ∧ first.id = id ∧ srcPort first.dataId = port ∧ a = addr ∧ q = port := by
+  intro a q id nq x y hm
+  obtain ⟨act, hd, hp⟩ := step_decide hs
+  cases act with
+  | idle lis => rw [(perform_idle hp).2] at hm; cases hm
+  | defer lis d => rw [(perform_defer hp).2] at hm; cases hm
+  | ready d => obtain ⟨t', he⟩ := decide_ready hd; cases he
+  | remove d recs => rw [(perform_remove hp).1] at hm; cases hm
+  | answer lis pkts addr' port' =>
+    obtain ⟨rest, ha⟩ := perform_answer hp
+    obtain ⟨ha', hp', hk'⟩ := decide_rx_answer hd
+    rw [ha', hp', hk'] at ha
+    cases hqa : asyncResponse (h.lis.deferredOf addr ++ [p]) (Gen.Reply.ucast_source port) seen with
+    | none =>
+      have : r.outs = [] := by
+        simp only [Host.assemble] at ha
+        cases hf : (h.lis.deferredOf addr ++ [p]).head? with
+        | none => simp [hf] at ha
+        | some f =>
+          have hqa' : asyncResponse (h.lis.deferredOf addr ++ [p]) (Gen.Reply.ucast_source port)
+              (Ev.rx t addr port dataId size hasQu (.query p) seen draws).seen = none := hqa
+          simp only [hf, hqa', Except.ok.injEq, Prod.mk.injEq] at ha
+          rw [← ha.1]
+      rw [this] at hm; cases hm
+    | some qa =>
+      have hqa' : asyncResponse (h.lis.deferredOf addr ++ [p]) (Gen.Reply.ucast_source port)
+          (Ev.rx t addr port dataId size hasQu (.query p) seen draws).seen = some qa := hqa
+      obtain ⟨first, hf, ho, _⟩ := assemble_spec ha hqa'
+      rw [ho] at hm
+      simp only [immediateOuts, List.mem_append] at hm
+      rcases hm with hm | hm
+      · split at hm
+        · cases hm
+        · simp only [List.mem_singleton, Out.ucast.injEq] at hm
+          obtain ⟨h1, h2, h3, _⟩ := hm
+          refine ⟨first, hf, h3.symm, ?_, h1, h2⟩
+          have hmem : first ∈ h.lis.deferredOf addr ++ [p] := List.mem_of_mem_head? hf
+          rcases List.mem_append.mp hmem with hm1 | hm1
+          · exact hsame first hm1
+          · simp only [List.mem_singleton] at hm1; rw [hm1, hpd]; exact hsrc
+      · split at hm
+        · cases hm
+        · simp [Out.ofMcast] at hm
+
+/-- the witness of D36: a truncated packet from port 40000 (datagram 1, id 7) is being held for address 1; the plain query from port
+40001 (datagram 2, id 9) is answered — to port 40001 — with id 7 -/
+def d25Held : Pkt := { dataId := 1, now := 1000, id := 7, flags := 512, numAuth := 0, nq := 1, q0type := 12,
+                       items := [{ qu := false, cands := [{ id := 5, ttl := 4500, adds := [] }] }], known := [] }
+def d25Plain : Pkt := { dataId := 2, now := 1100, id := 9, flags := 0, numAuth := 0, nq := 1, q0type := 33,
+                        items := [{ qu := false, cands := [{ id := 6, ttl := 120, adds := [] }] }], known := [] }
+def d25Host : Host := { lis := { lastData := some 1, lastTime := 1000, lastMsgQu := some false, deferred := [(1, [d25Held])],
+                                 timers := [{ addr := 1, due := 1450, port := 40000 }] } }
+def d25Src : Nat → Nat := fun d => if d = 1 then 40000 else 40001
+
+def d25Out : Option StepOut := (d25Host.step (.rx 1100 1 40001 2 60 false (.query d25Plain) [] [50])).toOption
+
+theorem C11_reply_own_query_refuted : ¬ C11_reply_own_query_full := by
+  intro hfull
+  cases hr : d25Host.step (.rx 1100 1 40001 2 60 false (.query d25Plain) [] [50]) with
+  | error m => have : (d25Host.step (.rx 1100 1 40001 2 60 false (.query d25Plain) [] [50])).toOption.isSome = true := by decide
+               rw [hr] at this; cases this
+  | ok r =>
+    have hout : (d25Host.step (.rx 1100 1 40001 2 60 false (.query d25Plain) [] [50])).toOption.map (·.outs) =
+        some [Out.ucast 1 40001 7 1 [5, 6] []] := by decide
+    rw [hr] at hout
+    simp only [Except.toOption, Option.map_some, Option.some.injEq] at hout
+    obtain ⟨pk, hpk, hid, hsp⟩ := hfull d25Src d25Host 1100 1 40001 2 60 false d25Plain [] [50] r hr rfl (by decide)
+      1 40001 7 1 [5, 6] [] (by rw [hout]; simp)
+    have : ∀ pk ∈ d25Host.lis.deferredOf 1 ++ [d25Plain], ¬ (pk.id = 7 ∧ d25Src pk.dataId = 40001) := by decide
+    exact this pk hpk ⟨hid, hsp⟩
+
+example : ¬ d25Host.lis.DeferredFromPort d25Src 1 40001 := by decide
+example : ({} : Host).lis.DeferredFromPort d25Src 1 40001 := by decide
+
+/-! ## the first sentence of the property, end to end: logical routing (above), timing (C12's host runs), sockets (`C11Net`) -/
+
+section EndToEnd
+open Zc.Reply.Net
+
+/-- **A legacy query, end to end, on the sockets** ("a query from a source port other than 5353 gets a unicast reply to that address and
+port on the receiving socket, echoing the query id …, in addition to the normal multicast").  In any state a run from the initial
+state reaches (`HInv`), let a block answer a query (`pkts`, any number of packets and questions) that came from `(addr, port)`, `port ≠ 5353`,
+on a host with any sockets.  Then for **every** unsuppressed candidate answer `x` of every question of every packet:
+
+1. in that very block a unicast datagram carrying `x` is written on the receiving socket to the querier's complete sockaddr, with the id
+   of the first packet; and
+2. `x` is multicast **on every socket** of the host: in the same block, or by a queue's timer callback at most 500 ms (aggregated) /
+   1200 ms (seen in the last second) later, in every continuation of the run — or the run ends before that deadline, or `x` was withdrawn meanwhile by an
+   `async_remove_answers` block (its service was unregistered: C12's `withdrawnInTrace`). -/
+theorem C11_legacy_end_to_end (w : World) {hO hD : List AddRec} {clock : Int} {h : Host} (hI : HInv hO hD clock h)
+    {e : Ev} {es : List Ev} {h' : Host} {c' : Int} {r : StepOut} {tr : List (Ev × StepOut)}
+    (hr : HRun h clock (e :: es) h' c' ((e, r) :: tr))
+    {lis : Listener} {pkts : List Pkt} {addr port : Nat} (hdec : h.decide e = .ok (.answer lis pkts addr port))
+    {first : Pkt} (hf : pkts.head? = some first) {qa : QA} (hqa : asyncResponse pkts (Gen.Reply.ucast_source port) e.seen = some qa)
+    (hport : port ≠ 5353) (hfam : w.SameFamily addr)
+    {p : Pkt} (hp : p ∈ pkts) {it : QItem} (hit : it ∈ p.items) (x : RecId) (hx : x ∈ (answerSet (unionKnown pkts) it).keys) :
+    (∃ d ∈ assemble w pkts addr port e.seen, d.sock = w.rx.id ∧ d.packet.multicast = false ∧ d.dest = replyDest w addr port ∧
+        d.packet.id = first.id ∧ x ∈ d.packet.answers) ∧
+    ((∀ s ∈ w.senders, ∃ d ∈ assemble w pkts addr port e.seen, d.sock = s.id ∧ d.dest = groupDest s ∧ d.packet.multicast = true ∧
+        x ∈ d.packet.answers) ∨
+     (∃ dl, ∃ blk ∈ tr, ∃ t b, blk.1 = .qfire t dl ∧ x ∈ b.keys ∧ e.time ≤ t ∧ t ≤ e.time + (if dl then 1200 else 500) ∧
+        ∀ s ∈ w.senders, ∀ fst, ({ sock := s.id, dest := groupDest s, packet := mcastContent b.keys (additionalsOf b) } : Sent Content) ∈
+          blk.2.outs.flatMap (realize w fst)) ∨
+     c' ≤ e.time + 1200 ∨
+     (∃ dl, withdrawnInTrace dl tr x)) := by
+  obtain ⟨hu, hm⟩ := C11_query_legacy port hport hqa hp hit x hx
+  have hasm : Assembled h e pkts port first qa := ⟨⟨lis, addr, hdec⟩, hf, hqa⟩
+  constructor
+  · have hne : qa.ucast.isEmpty = false := Dict.isEmpty_false_of_mem hu
+    have hfil := C11_unicast_receiving_socket w hf hqa hne hfam
+    have hmem : ∀ d, d ∈ (assemble w pkts addr port e.seen).filter (fun d => !d.packet.multicast) → d ∈ assemble w pkts addr port e.seen :=
+      fun d hd => (List.mem_filter.mp hd).1
+    rw [hfil] at hmem
+    exact ⟨_, hmem _ (List.mem_singleton.mpr rfl), rfl, rfl, rfl, rfl, hu⟩
+  · have later : ∀ (dl : Bool), x ∈ (if dl then qa.mcastLast else qa.mcastAgg).keys →
+        (∃ dl, ∃ blk ∈ tr, ∃ t b, blk.1 = .qfire t dl ∧ x ∈ b.keys ∧ e.time ≤ t ∧ t ≤ e.time + (if dl then 1200 else 500) ∧
+          ∀ s ∈ w.senders, ∀ fst, ({ sock := s.id, dest := groupDest s, packet := mcastContent b.keys (additionalsOf b) } : Sent Content) ∈
+            blk.2.outs.flatMap (realize w fst)) ∨ c' ≤ e.time + 1200 ∨ (∃ dl, withdrawnInTrace dl tr x) := by
+      intro dl hxl
+      rcases C12_host_on_wire dl hI hr hasm hxl with ⟨blk, hblk, t, b, h1, h2, h3, h4, h5⟩ | hend | hw
+      · left
+        refine ⟨dl, blk, hblk, t, b, h1, h3, h4, h5, ?_⟩
+        intro s hs fst
+        refine List.mem_flatMap.mpr ⟨_, h2, ?_⟩
+        rw [realize_mcast, multicast_eq]
+        exact List.mem_map.mpr ⟨s, hs, rfl⟩
+      · right; left
+        cases dl <;> simp at hend <;> omega
+      · right; right; exact ⟨dl, hw⟩
+    rcases hm with hnow | hagg | hlast
+    · left
+      have hne : qa.mcastNow.isEmpty = false := Dict.isEmpty_false_of_mem hnow
+      have hfil := C11_mcast_now_every_socket w (addr := addr) hf hqa hne
+      intro s hs
+      have hin : ({ sock := s.id, dest := { ip := if s.v6 then .group6 else .group4, port := 5353, fs := if s.v6 then some (s.flow, s.scope) else none },
+                    packet := mcastContent qa.mcastNow.keys (additionalsOf qa.mcastNow) } : Sent Content) ∈
+          (assemble w pkts addr port e.seen).filter (fun d => d.packet.multicast) := by
+        rw [hfil]; exact List.mem_map.mpr ⟨s, hs, rfl⟩
+      refine ⟨_, (List.mem_filter.mp hin).1, rfl, rfl, mcastContent_multicast _ _, ?_⟩
+      rw [mcastContent_eq]; exact hnow
+    · right; exact later false (by simpa using hagg)
+    · right; exact later true (by simpa using hlast)
+
+end EndToEnd
 
 /-! non-vacuity -/
 example : hasQuFlag [true, false] = true ∧ hasQuFlag [false, true, false] = true ∧ hasQuFlag [false, false] = false := by decide
